@@ -199,3 +199,110 @@ impl JobExecutor for SimExecutor {
         }
     }
 }
+
+// ---------------------------------------------------------------------------------------------
+// module loader seam
+
+use boa_engine::module::{Module, ModuleLoader, ModuleRequest, Referrer};
+use std::collections::BTreeMap;
+
+#[derive(Clone, Debug, PartialEq, Eq)]
+pub enum LoaderEv {
+    Call { referrer: String, specifier: String },
+    Done { specifier: String, ok: bool },
+}
+
+#[derive(Clone, Debug, Default)]
+pub struct LoadPlan {
+    /// number of polls the request stays pending
+    pub latency: u32,
+    /// 0 none, 1 fetch error, 2 parse error (source is replaced by broken text)
+    pub fault: u8,
+}
+
+/// Stub of the host's module fetcher: seeded latency per request, injected fetch / parse
+/// errors; it calls the real `Module::parse`. The same specifier always yields the same record.
+#[derive(Default)]
+pub struct SimLoader {
+    pub sources: RefCell<BTreeMap<String, String>>,
+    pub plans: RefCell<BTreeMap<String, LoadPlan>>,
+    pub cache: RefCell<BTreeMap<String, Module>>,
+    pub log: Rc<RefCell<Vec<LoaderEv>>>,
+    pub delays_fired: Cell<u64>,
+    pub fetch_errors: Cell<u64>,
+    pub parse_errors: Cell<u64>,
+}
+
+struct Latency(u32);
+impl Future for Latency {
+    type Output = ();
+    fn poll(mut self: Pin<&mut Self>, cx: &mut std::task::Context<'_>) -> Poll<()> {
+        if self.0 == 0 {
+            Poll::Ready(())
+        } else {
+            self.0 -= 1;
+            // the real executor parks between polls: ask to be polled again
+            cx.waker().wake_by_ref();
+            Poll::Pending
+        }
+    }
+}
+
+impl SimLoader {
+    pub fn name_of(&self, m: &Module) -> String {
+        self.cache.borrow().iter().find(|(_, v)| *v == m).map_or_else(|| "?".to_string(), |(k, _)| k.clone())
+    }
+
+    /// Parses (once) and returns the record for `specifier`.
+    pub fn get_or_parse(&self, specifier: &str, ctx: &mut Context) -> JsResult<Module> {
+        if let Some(m) = self.cache.borrow().get(specifier) {
+            return Ok(m.clone());
+        }
+        let fault = self.plans.borrow().get(specifier).map_or(0, |p| p.fault);
+        let src = if fault == 2 {
+            self.parse_errors.set(self.parse_errors.get() + 1);
+            "export let v = ;".to_string()
+        } else {
+            self.sources.borrow().get(specifier).cloned().ok_or_else(|| {
+                boa_engine::JsNativeError::typ().with_message(format!("SIM loader: no such module {specifier}"))
+            })?
+        };
+        let m = Module::parse(
+            boa_engine::Source::from_bytes(src.as_str()).with_path(std::path::Path::new(specifier)),
+            None,
+            ctx,
+        )?;
+        self.cache.borrow_mut().insert(specifier.to_string(), m.clone());
+        Ok(m)
+    }
+}
+
+impl ModuleLoader for SimLoader {
+    async fn load_imported_module(
+        self: Rc<Self>,
+        referrer: Referrer,
+        request: ModuleRequest,
+        context: &RefCell<&mut Context>,
+    ) -> JsResult<Module> {
+        let spec = request.specifier().to_std_string_escaped();
+        let referrer = match &referrer {
+            Referrer::Module(m) => self.name_of(m),
+            Referrer::Realm(_) => "<realm>".to_string(),
+            Referrer::Script(_) => "<script>".to_string(),
+        };
+        self.log.borrow_mut().push(LoaderEv::Call { referrer, specifier: spec.clone() });
+        let plan = self.plans.borrow().get(&spec).cloned().unwrap_or_default();
+        if plan.latency > 0 {
+            self.delays_fired.set(self.delays_fired.get() + 1);
+            Latency(plan.latency).await;
+        }
+        let r = if plan.fault == 1 {
+            self.fetch_errors.set(self.fetch_errors.get() + 1);
+            Err(boa_engine::JsNativeError::typ().with_message(format!("SIM fetch failed: {spec}")).into())
+        } else {
+            self.get_or_parse(&spec, &mut context.borrow_mut())
+        };
+        self.log.borrow_mut().push(LoaderEv::Done { specifier: spec, ok: r.is_ok() });
+        r
+    }
+}
